@@ -196,18 +196,21 @@ static int _yr_arena_allocate_memory(
                             : arena->buffers[reloc->buffer_id].data;
 
         // reloc_address holds the address inside the buffer where the pointer
-        // to be relocated resides.
-        void** reloc_address = (void**) (base + reloc->offset);
+        // to be relocated resides. The slot is not necessarily aligned (for
+        // example pointers embedded in the code section), so it is accessed
+        // with memcpy, like yr_arena_save_stream and yr_arena_load_stream do.
+        uint8_t* reloc_address = base + reloc->offset;
 
         // reloc_target is the value of the relocatable pointer.
-        void* reloc_target = *reloc_address;
+        uint8_t* reloc_target;
+        memcpy(&reloc_target, reloc_address, sizeof(reloc_target));
 
-        if ((uint8_t*) reloc_target >= b->data &&
-            (uint8_t*) reloc_target < b->data + b->used)
+        if (reloc_target >= b->data && reloc_target < b->data + b->used)
         {
           // reloc_target points to some data inside the buffer being moved, so
           // the pointer needs to be adjusted.
-          *reloc_address = (uint8_t*) reloc_target - b->data + new_data;
+          reloc_target = reloc_target - b->data + new_data;
+          memcpy(reloc_address, &reloc_target, sizeof(reloc_target));
         }
 
         reloc = reloc->next;
